@@ -44,7 +44,7 @@ def scalars(rng, n):
     return out
 
 
-def cases(rng, tier):
+def _cases_core(rng, tier):
     n = 60 if tier == "quick" else 4000
     for k in scalars(rng, n):
         kb = k.to_bytes(32, "big")
@@ -214,3 +214,9 @@ def oracle(line, out):
 
 
 known_match = common.no_known
+
+
+def cases(rng, tier):
+    from . import extra
+    yield from _cases_core(rng, tier)
+    yield from extra.cases_for('keyeq', rng, tier)
